@@ -8,7 +8,7 @@ def run(ctx):
     from contracts import c14_memo as C
 
     dsl.verify(ctx, repo, C.registry(), "C14", C.UT + ".list_of_np_cache", C.h_list_cache, expect_covers=C.LIST_COVERS)
-    dsl.verify(ctx, repo, C.registry(), "C14", C.UT + ".two_np_arr_cache", C.h_pair_cache, expect_covers=C.PAIR_COVERS)
+    dsl.verify(ctx, repo, C.registry(), "C14", C.UT + ".two_np_arr_cache", C.h_pair_cache, expect_covers=C.PAIR_COVERS, concretise=C.replay_pair_cache)
     dsl.verify(ctx, repo, C.new_tree_registry(), "C14", C.SA + ".get_cached_new_tree", C.h_new_tree, expect_covers=["alpha-changed", "alpha-same"])
     dsl.verify(ctx, repo, C.new_tree_registry(), "C14.semi", [C.SA + ".SemiAdaptedKernel.get_proposal_distribution", C.SA + "._get_cached_semi_proposal_dist"], C.h_proposal_cache,
                expect_covers=["proposal-cache"])
